@@ -19,3 +19,58 @@ Proof.
   apply (revolve_run_of_grammar N ram disk uf ub wd rd L0 k HN Hram Hram1 HB). exact HL.
 Qed.
 Print Assumptions revolve_run.
+
+(* C05 / C07 for Revolve: once the schedule is exhausted the reference executor has carried out exactly N + P ram (N-1)
+   forward steps, P the step-count dynamic programme (minimum over all first splits, Opt0Table.P); and the entry of the cost
+   table for the whole problem is (l+1) ub + uf P ram l, so  uf * forward steps + ub * N = table optimum + N uf. *)
+Require Import Opt0Table.
+Require RevCost RevGen.
+Theorem revolve_forward_total N ram disk uf ub wd rd k : 1 <= N -> 0 <= ram -> (2 <= N -> 1 <= ram) -> 0 < uf ->
+  exists L, sequence KRevolve N ram disk uf ub wd rd = Ok L /\
+  let '(s', m, ls) := run_ops (rev_xparams N ram) {| ob := ORevF KRevolve N ram disk (init_r L); started := false |} mon0 (repeat Next k) in
+  mon_ok m /\ no_raise ls /\ (is_exhausted s' = true -> fwd_total (cnt (mx m)) = N + P ram (N - 1)).
+Proof.
+  intros HN Hram Hram1 Huf.
+  destruct (revolve_top_total (N - 1) ram uf ub ltac:(lia) Hram ltac:(lia)) as [L HL].
+  exists L. split; [exact HL|].
+  unfold revolve_top in HL. destruct (get_opt_0_table (N - 1) ram uf ub) as [t|] eqn:Et; [|discriminate]. cbn [bind] in HL.
+  destruct (revolve_g _ _ _ _ _ _ HL) as (L0 & HG & ->).
+  assert (HB : RevBlk.Blk true 0 (N - 1) ram L0) by (apply (RevGen.revolve_blk _ _ _ _ _ _ HG); lia).
+  pose proof (revolve_cfg_run N ram disk L0 k HN Hram Hram1 HB) as Hrun.
+  destruct (run_ops (rev_xparams N ram) _ mon0 (repeat Next k)) as [[s' m'] ls]. destruct Hrun as (H1 & H2 & H3).
+  split; [assumption|]. split; [assumption|]. intros He. rewrite (H3 He).
+  rewrite (RevCost.revolve_work uf ub Huf t ram (N - 1) P) with (fuel := Z.to_nat (2 * (N - 1) + 4)) (l := N - 1) (cm := ram); try lia; try exact HG.
+  - intros m l Hm Hl Hml. apply tget_g. apply (opt0_values uf ub ltac:(lia) (N - 1) ram t ltac:(lia) Et m l Hm Hl Hml).
+  - intros m. apply P_0.
+  - intros m _. apply P_1.
+  - apply P_c1.
+  - apply P_le.
+  - apply P_ex.
+Qed.
+Theorem revolve_table_optimum N ram uf ub t : 1 <= N -> 1 <= ram -> 0 <= uf -> get_opt_0_table (N - 1) ram uf ub = Ok t ->
+  tget t ram (N - 1) = Ok (N * ub + uf * P ram (N - 1)).
+Proof.
+  intros HN Hram Huf Et. rewrite (opt0_values uf ub Huf (N - 1) ram t ltac:(lia) Et ram (N - 1)) by lia. unfold val. f_equal. lia.
+Qed.
+Print Assumptions revolve_forward_total.
+
+(* ... and that number is the Griewank-Walther optimum: the same TC N s that MultistageCheckpointSchedule spends (C05) *)
+Require Import RevolveGW.
+Require Inst BinomDP.
+Lemma revolve_steps_gw tj N ram : 1 <= N -> 0 <= ram -> (2 <= N -> 1 <= ram) -> N + P ram (N - 1) = Inst.TC tj N ram.
+Proof.
+  intros HN Hram Hram1. destruct (Z.eq_dec N 1) as [->|HN1]; [rewrite P_0; reflexivity|].
+  pose proof (P_eq_E (Z.to_nat (N - 1)) (Z.to_nat ram) ltac:(lia)) as HP. rewrite !Z2Nat.id in HP by lia.
+  pose proof (TC_E tj (Z.to_nat N) (Z.to_nat ram) ltac:(lia) ltac:(lia)) as HT. rewrite !Z2Nat.id in HT by lia.
+  replace (S (Z.to_nat (N - 1))) with (Z.to_nat N) in HP by lia. lia.
+Qed.
+Theorem revolve_forward_total_gw tj N ram disk uf ub wd rd k : 1 <= N -> 0 <= ram -> (2 <= N -> 1 <= ram) -> 0 < uf ->
+  exists L, sequence KRevolve N ram disk uf ub wd rd = Ok L /\
+  let '(s', m, ls) := run_ops (rev_xparams N ram) {| ob := ORevF KRevolve N ram disk (init_r L); started := false |} mon0 (repeat Next k) in
+  mon_ok m /\ no_raise ls /\ (is_exhausted s' = true -> fwd_total (cnt (mx m)) = Inst.TC tj N ram).
+Proof.
+  intros HN Hram Hram1 Huf. destruct (revolve_forward_total N ram disk uf ub wd rd k HN Hram Hram1 Huf) as (L & HL & H).
+  exists L. split; [exact HL|]. destruct (run_ops _ _ mon0 (repeat Next k)) as [[s' m'] ls]. destruct H as (H1 & H2 & H3).
+  split; [assumption|]. split; [assumption|]. intros He. rewrite (H3 He). apply revolve_steps_gw; assumption.
+Qed.
+Print Assumptions revolve_forward_total_gw.
